@@ -1,4 +1,5 @@
 import ZV.Base
+import ZV.Generated.C35
 /-!
   Model of `tls/common.go: lruSessionCache` (Put / Get), branch for branch.
 
@@ -19,9 +20,10 @@ structure Cache where
   q   : Q
   deriving Repr, DecidableEq
 
-/-- `NewLRUClientSessionCache`: capacity < 1 ⇒ 64. -/
+/-- `NewLRUClientSessionCache`: capacity < 1 ⇒ `defaultSessionCacheCapacity` (T1: taken from the tree,
+    `ZV.C35.Gen`, not copied). -/
 def new (capacity : Int) : Cache :=
-  { cap := if capacity < 1 then 64 else capacity.toNat, q := [] }
+  { cap := if capacity < 1 then Gen.defaultSessionCacheCapacity else capacity.toNat, q := [] }
 
 def hasKey (k : Key) (q : Q) : Bool := q.any (fun e => e.1 == k)
 
@@ -69,5 +71,25 @@ def run (c : Cache) : List Op → Cache × List (Option (Val × Bool))
     let (c1, o) := step c op
     let (c2, os) := run c1 ops
     (c2, o :: os)
+
+/-! ### sequential-history acceptance (the specification the linearizability checker of the harness
+    replays candidate linearizations against): a history is a list of completed calls with the
+    value each call returned. -/
+
+/-- one completed call: the operation and what it returned (`none` for `Put`). -/
+abbrev Call := Op × Option (Val × Bool)
+
+/-- replay a sequential history on a cache state, comparing every returned value. -/
+def accepts (c : Cache) : List Call → Bool
+  | [] => true
+  | (op, r) :: rest =>
+    let (c1, o) := step c op
+    if o = r then accepts c1 rest else false
+
+/-- internal-state view compared with the dump hook `tls.ZVC35Dump`: capacity, the recency list front
+    to back, and the key index `m` (sorted keys; each key must point at the list element carrying it —
+    in this model `m` IS the index of `q`). -/
+def mKeys (c : Cache) : List Key :=
+  (c.q.map (·.1)).mergeSort (fun a b => a ≤ b)
 
 end ZV.C35
